@@ -3,13 +3,15 @@
 (* C09 conformance (M1), connection part.  The driver ran N instances (one *)
 (* real http gun each, from the registered factory) x R requests against a *)
 (* recording target, keep-alive on and off, http and https.  Log per run:  *)
-(*   Run{n, r, keepalive, ssl, insts, opts, gap_ms}   opts: the gun's      *)
+(*   Run{n, r, keepalive, ssl, insts, opts, gap_ms, idle_ms}   opts: the   *)
+(*                               gun's                                     *)
 (*                               documented client options set away from   *)
 (*                               their defaults; gap_ms: every instance    *)
 (*                               idles at least that long between shots    *)
 (*                               (longer than response-header-timeout, far *)
 (*                               shorter than idle-conn-timeout)           *)
-(*   Shoot{inst, uri}            who shot which request (gun wrapper)      *)
+(*   Shoot{inst, idx, uri, ok}   who shot which request (gun wrapper) and  *)
+(*                               whether it ended with a complete answer   *)
 (*   Conn{conn, state}           the target's ConnState callback, and      *)
 (*   Req{conn, uri, inst, ok}    the request it served, in the target's    *)
 (*                               own order (inst joined from Shoot by uri) *)
@@ -36,10 +38,10 @@ Trace == ndJsonDeserialize(IOEnv.VERIF_TRACE)
 tvars == <<l, nsamp, nbad>>
 TInit == /\ l = 0 /\ nsamp = 0 /\ nbad = 0
          /\ ninst = 0 /\ ka = TRUE /\ cs = <<>> /\ own = <<>> /\ nreq = <<>>
-         /\ pool = <<>> /\ busy = <<>> /\ sent = <<>> /\ fails = <<>> /\ tun = <<>> /\ shk = 0
+         /\ pool = <<>> /\ busy = <<>> /\ sent = <<>> /\ fails = <<>> /\ tun = <<>> /\ shk = 0 /\ expiry = FALSE
 
 E == Trace[l + 1]
-Keep == UNCHANGED <<ninst, ka, cs, own, nreq, fails, tun, shk>>
+Keep == UNCHANGED <<ninst, ka, cs, own, nreq, fails, tun, shk, expiry>>
 
 \* the client an instance shoots with: its own, or - shared-client, client-number k - the one Bind handed out
 \* round-robin (core/clientpool Next: the first bound instance gets client 1 mod k); idx = 0-based Bind order
@@ -51,26 +53,33 @@ Step == /\ l < Len(Trace)
         /\ UNCHANGED <<pool, busy, sent>>           \* client-internal, not observable at the target
         /\ CASE E.ev = "Run" ->
                    /\ ninst' = (IF E.shared > 0 THEN E.shared ELSE E.n) /\ ka' = E.keepalive /\ shk' = E.shared /\ tun' = <<>>
+                   \* idle gaps longer than the configured idle-conn-timeout (0 = not set by the run: the 90 s default)
+                   /\ expiry' = (E.idle_ms > 0 /\ E.gap_ms > E.idle_ms)
                    /\ cs' = <<>> /\ own' = <<>> /\ nreq' = <<>> /\ nsamp' = 0 /\ nbad' = 0
                    /\ fails' = [k \in ClientsOfRun(E.shared, E.n) |-> 0]
              [] E.ev = "Conn" /\ E.state = "new" ->
-                   DialEff(E.conn) /\ UNCHANGED <<ninst, ka, nsamp, nbad, fails, tun, shk>>
+                   DialEff(E.conn) /\ UNCHANGED <<ninst, ka, nsamp, nbad, fails, tun, shk, expiry>>
              [] E.ev = "Conn" /\ E.state = "active" ->
-                   ActiveEff(E.conn) /\ UNCHANGED <<ninst, ka, own, nreq, nsamp, nbad, fails, tun, shk>>
+                   ActiveEff(E.conn) /\ UNCHANGED <<ninst, ka, own, nreq, nsamp, nbad, fails, tun, shk, expiry>>
              [] E.ev = "Conn" /\ E.state = "idle" ->
-                   IdleEff(E.conn) /\ UNCHANGED <<ninst, ka, own, nreq, nsamp, nbad, fails, tun, shk>>
+                   IdleEff(E.conn) /\ UNCHANGED <<ninst, ka, own, nreq, nsamp, nbad, fails, tun, shk, expiry>>
              [] E.ev = "Conn" /\ E.state = "closed" ->
-                   ClosedEff(E.conn) /\ UNCHANGED <<ninst, ka, own, nreq, nsamp, nbad, fails, tun, shk>>
+                   ClosedEff(E.conn) /\ UNCHANGED <<ninst, ka, own, nreq, nsamp, nbad, fails, tun, shk, expiry>>
              [] E.ev = "Req" ->
                    \* the request reached the target; if its exchange did not end with a complete answer (the
                    \* instance's own sample says so) the instance is entitled to a new connection afterwards
                    /\ ReqEff(ClientLabel(shk, E.idx), E.conn)
+                   /\ UNCHANGED <<ninst, ka, cs, nsamp, nbad, tun, shk, fails, expiry>>
+             [] E.ev = "Shoot" ->
+                   \* the gun wrapper's view of a shot (logged before the target's events of the run): a shot that did
+                   \* not end with a complete answer - whether or not it reached the target - entitles its client to
+                   \* one more connection
                    /\ IF E.ok THEN fails' = fails ELSE FailEff(ClientLabel(shk, E.idx))
-                   /\ UNCHANGED <<ninst, ka, cs, nsamp, nbad, tun, shk>>
+                   /\ UNCHANGED <<ninst, ka, cs, own, nreq, nsamp, nbad, tun, shk, expiry>>
              [] E.ev = "Connect" ->
                    \* a CONNECT the proxy accepted: it opened the origin-side connection E.conn
                    /\ TunnelEff(E.conn, [uri |-> E.uri, host |-> E.host])
-                   /\ UNCHANGED <<ninst, ka, cs, own, nreq, fails, nsamp, nbad, shk>>
+                   /\ UNCHANGED <<ninst, ka, cs, own, nreq, fails, nsamp, nbad, shk, expiry>>
              [] E.ev = "Sample" ->
                    /\ IF E.proto = 200 /\ E.net = 0 THEN nsamp' = nsamp + 1 /\ nbad' = nbad
                                                     ELSE nbad' = nbad + 1 /\ nsamp' = nsamp
@@ -94,7 +103,8 @@ RunComplete == (l > 0 /\ Last.ev = "End") =>
                      ELSE /\ SumReq(Conns) = Last.n * Last.r
                           /\ nsamp = Last.n * Last.r /\ nbad = 0
                   /\ ~ka => Cardinality(Conns) = Last.n * Last.r
-                  /\ \A c \in Conns : own[c] # NoInst
+                  \* a connection nobody sent on can only be the trace of a failed shot
+                  /\ Cardinality({c \in Conns : own[c] = NoInst}) <= SumOver(fails, DOMAIN fails)
 \* connect gun: at the end of the run every connection the target saw is a tunnel opened by its own CONNECT, which
 \* named the gun's target (checked at the end: the proxy logs the CONNECT while the origin logs the new connection)
 TTunnelled == (l > 0 /\ Last.ev = "End" /\ "gun" \in DOMAIN Last /\ Last.gun = "connect") =>
